@@ -1,4 +1,5 @@
 import Cgm.Lemmas.AuditCmd
 import Cgm.Props.C16
 import Cgm.Props.C16b
+import Cgm.Props.C16c
 #audit_namespace Cg.C16
